@@ -415,6 +415,10 @@ def write_data(file, tdms_object):
 def to_file(file, array):
     """Wrapper around ndarray.tofile to support any file-like object"""
 
+    if array.dtype.byteorder == '>':
+        # Segments are always written as little endian
+        array = array.astype(array.dtype.newbyteorder('<'))
+
     try:
         array.tofile(file)
     except (TypeError, IOError, UnsupportedOperation):
